@@ -258,4 +258,17 @@ func init() {
 			ruleWF3(c)
 		},
 	})
+
+	register(&PropSpec{
+		ID:    "C14",
+		Level: "other",
+		Explanation: "Byte-for-byte regeneration is a run of the generator; static analysis cannot replace it. Decided is whether each checked-in generated file is an instance of the CURRENT templates and whether the three files of each directory agree with each other and with the grammar next to them: TPL-1 matches each of the 12 files (whitespace-insensitively, every literal segment of code and comments in order, holes constrained by category, the feature switch decided by the package's own parser type) against a matcher derived from the template text; TPL-2 decodes the constant tables and checks every index, the _act case set, token constants (dense, EOF=0, ERROR=1, one per grammar token), mode count, sorted disjoint ranges; TPL-3 every grammar directory holds the three files and type-checks. " +
+			"NOT decided: that the NUMBERS in the tables are those the current automaton construction would produce; a change to LALR/DFA construction or table layout code that is not followed by regeneration is invisible here.",
+		Run: func(c *Ctx) {
+			ruleTPL1(c)
+			ruleTPL2(c)
+			ruleTPL3(c)
+			ruleTPL4(c)
+		},
+	})
 }
